@@ -978,6 +978,9 @@ func (c *SpecCtx) callExpr(e *ECall) SVal {
 				continue
 			}
 			seen := c.st.cells[it.seenKey].T
+			if !strings.HasPrefix(seen.Sort, "(Array ") {
+				continue // this iterator has not started in the current state
+			}
 			kk := k
 			if kk.Lit != nil {
 				kk = c.litTo(kk, it.mt.Key())
